@@ -167,16 +167,9 @@ func (g *Generator) generateStructSchemaWithRefs(t reflect.Type) *openapi3.Schem
 	var required []string
 	requiredSet := make(map[string]bool)
 
-	for i := 0; i < t.NumField(); i++ {
-		field := t.Field(i)
-		if !field.IsExported() {
-			continue
-		}
-
-		jsonName := getJSONFieldName(field)
-		if jsonName == "" || jsonName == "-" {
-			continue
-		}
+	for _, jf := range jsonStructFields(t) {
+		field := jf.StructField
+		jsonName := jf.jsonName
 
 		// Generate field schema with $ref support.
 		fieldSchema := g.generateFieldSchemaWithRefs(field.Type, field)
@@ -410,17 +403,9 @@ func convertStructToSchemaWithDepthLimit(t reflect.Type, visited map[reflect.Typ
 	var required []string
 	requiredSet := make(map[string]bool)
 
-	for i := 0; i < t.NumField(); i++ {
-		field := t.Field(i)
-
-		if !field.IsExported() {
-			continue
-		}
-
-		jsonName := getJSONFieldName(field)
-		if jsonName == "" || jsonName == "-" {
-			continue
-		}
+	for _, jf := range jsonStructFields(t) {
+		field := jf.StructField
+		jsonName := jf.jsonName
 
 		// For recursive fields, decrease depth.
 		fieldType := field.Type
@@ -525,19 +510,10 @@ func convertStructToSchemaWithVisited(t reflect.Type, visited map[reflect.Type]*
 	var required []string
 	requiredSet := make(map[string]bool) // Track required fields to avoid duplicates
 
-	for i := 0; i < t.NumField(); i++ {
-		field := t.Field(i)
-
-		// Skip unexported fields
-		if !field.IsExported() {
-			continue
-		}
-
-		// Get JSON field name
-		jsonName := getJSONFieldName(field)
-		if jsonName == "" || jsonName == "-" {
-			continue // Skip fields without JSON tags or explicitly ignored
-		}
+	// Members as encoding/json names them (embedded structs promoted, `json:"-"` skipped).
+	for _, jf := range jsonStructFields(t) {
+		field := jf.StructField
+		jsonName := jf.jsonName
 
 		// Convert field type to schema
 		fieldSchema := convertReflectTypeToSchemaWithVisited(field.Type, visited)
@@ -909,27 +885,17 @@ func (g *NestedRefGenerator) generateStructSchema(t reflect.Type) *openapi3.Sche
 	schema := openapi3.NewObjectSchema()
 	schema.Properties = make(openapi3.Schemas)
 
-	for i := 0; i < t.NumField(); i++ {
-		field := t.Field(i)
-
-		// Skip unexported fields
-		if !field.IsExported() {
-			continue
-		}
+	// Members as encoding/json names them (embedded structs promoted, `json:"-"` skipped).
+	for _, jf := range jsonStructFields(t) {
+		field := jf.StructField
 
 		// Get JSON tag
 		jsonTag := field.Tag.Get("json")
-		if jsonTag == "-" {
-			continue
-		}
 
-		fieldName := field.Name
+		fieldName := jf.jsonName
 		omitempty := false
 		if jsonTag != "" {
 			parts := strings.Split(jsonTag, ",")
-			if parts[0] != "" {
-				fieldName = parts[0]
-			}
 			for _, opt := range parts[1:] {
 				if opt == "omitempty" {
 					omitempty = true
